@@ -167,6 +167,60 @@ type Driver interface {
 	PredictDeadlock(pool types.ConnectionPool, ev string, conn *vfake.Conn) (class, detail string)
 }
 
+// ModelOptions are pool-specific semantics of the reference model. A driver states them by
+// implementing Modeled; the zero value is the model of the ping-pong / multiplex / HTTP/1 units.
+type ModelOptions struct {
+	// Binding (xprotocol binding pool): one upstream connection per DOWNSTREAM connection id - the
+	// lease is keyed by the downstream connection of the request context. The driver implements
+	// BindingModel. Model: (a) a NewStream of a downstream connection that already has an open
+	// upstream connection which did not announce go-away travels on it, no second one is made;
+	// (b) the close of the downstream connection (extra event dclose) releases the lease: its
+	// upstream connections are closed; (c) the close of an upstream connection closes the
+	// downstream connection it is bound to (and thereby its sibling upstream connections), unless
+	// the upstream connection had announced go-away and carried no stream; (d) a stream ends when
+	// its connection is closed by anybody, also as a consequence of (b)/(c).
+	Binding bool
+	// SingleConn (HTTP/2): all streams to the host are multiplexed over ONE connection: at most
+	// one open connection that did not announce go-away exists at a quiescent point.
+	SingleConn bool
+	// DrainingNotActive (HTTP/2): a connection that announced go-away counts as an ACTIVE
+	// connection (upstream_connection_active) until the pool set out to replace it (made the next
+	// connection attempt) or it closed, whichever comes first; while it only drains its streams next to its successor it is
+	// open but no longer active. (Without the option: active == open.)
+	DrainingNotActive bool
+	// ShutdownMayBlock: PredictDeadlock is also asked before pool Shutdown.
+	ShutdownMayBlock bool
+}
+
+// Modeled is implemented by drivers whose pool needs ModelOptions.
+type Modeled interface{ Model() ModelOptions }
+
+// BindingModel is the driver side of ModelOptions.Binding: it owns the fake DOWNSTREAM connection.
+type BindingModel interface {
+	// Bind is called once for every upstream connection the pool created: the driver remembers
+	// that it belongs to the downstream connection of the request context it handed out last.
+	Bind(up *vfake.Conn)
+	// DownstreamOf returns the downstream connection an upstream connection is bound to.
+	DownstreamOf(up *vfake.Conn) *vfake.Conn
+	// CurrentDownstream is the downstream connection the next request context will carry (nil: a fresh one).
+	CurrentDownstream() *vfake.Conn
+}
+
+// ExtraEvents is implemented by a driver whose pool has environment events beyond the common
+// alphabet (binding pool: dclose, the downstream connection closes). An extra event may close
+// upstream connections; the model then ends the streams on them.
+type ExtraEvents interface {
+	ExtraEnabled(pool types.ConnectionPool) []string
+	ApplyExtra(pool types.ConnectionPool, ev string) (outcome string)
+}
+
+func (w *world) model() ModelOptions {
+	if m, ok := w.d.(Modeled); ok {
+		return m.Model()
+	}
+	return ModelOptions{}
+}
+
 // ---------------------------------------------------------------------------
 // case
 
@@ -200,6 +254,10 @@ type connT struct {
 	doomed bool
 	// envClosed: the environment (peer / harness) closed the connection, as opposed to the pool itself
 	envClosed bool
+	// goAwayDelivered: the go-away frame was handed to the stream layer completely (schedule part, multiplexed connections)
+	goAwayDelivered bool
+	// replaced (ModelOptions.DrainingNotActive): a successor was created after this connection announced go-away
+	replaced bool
 }
 
 // open is read from the fake connection itself (a connection may be registered by the model while
@@ -326,6 +384,14 @@ func newWorld(d Driver, cfg Cfg) *world {
 func (w *world) syncConns() {
 	for i := len(w.conns); i < len(vfake.Created); i++ {
 		fc := vfake.Created[i]
+		if bm, ok := w.d.(BindingModel); ok {
+			bm.Bind(fc)
+		}
+		for _, c := range w.conns {
+			if c.open() && c.tainted() {
+				c.replaced = true // the pool set out to replace it (read only under ModelOptions.DrainingNotActive)
+			}
+		}
 		w.conns = append(w.conns, &connT{fc: fc, idx: i, failed: !fc.Connected()})
 	}
 }
@@ -549,6 +615,7 @@ func (w *world) apply(ev string) (outcome string) {
 		if !w.inject(c, w.d.GoAwayBytes()) {
 			return "bad"
 		}
+		c.goAwayDelivered = true
 		if !c.open() {
 			w.endStreamsOn(c, "go-away-close")
 		}
@@ -577,6 +644,16 @@ func (w *world) apply(ev string) (outcome string) {
 		w.ext--
 		w.rm.Requests().Decrease()
 		return "released"
+	}
+	if x, ok := w.d.(ExtraEvents); ok {
+		for _, e := range x.ExtraEnabled(w.pool) {
+			if e == ev {
+				out := x.ApplyExtra(w.pool, ev)
+				w.syncConns()
+				w.sweepClosed(ev)
+				return out
+			}
+		}
 	}
 	w.harness("unknown event %q", ev)
 	return "bad"
@@ -629,6 +706,10 @@ func (w *world) step(ev string) string {
 		w.harness("after %q: %v", ev, err)
 	}
 	w.syncConns()
+	if w.model().Binding && w.herr == "" {
+		// model (c)/(d): connections closed together with their downstream connection end their streams
+		w.sweepClosed("closed-with-the-downstream-connection")
+	}
 	return out
 }
 
@@ -645,6 +726,10 @@ func (w *world) predict(ev string) (string, string) {
 	switch name {
 	case "close":
 		return w.d.PredictDeadlock(w.pool, name, nil)
+	case "shutdown":
+		if w.model().ShutdownMayBlock {
+			return w.d.PredictDeadlock(w.pool, name, nil)
+		}
 	case "rclose", "lclose":
 		if arg >= 0 && arg < len(w.conns) {
 			return w.d.PredictDeadlock(w.pool, name, w.conns[arg].fc)
@@ -841,6 +926,18 @@ func (w *world) newStream(variant string) string {
 		return "ok-but-unsendable"
 	}
 	s.c = on
+	if bm, ok := w.d.(BindingModel); ok && w.model().Binding {
+		if down := bm.DownstreamOf(on.fc); down != bm.CurrentDownstream() {
+			w.lease = append(w.lease, finding{"pool=" + pn + " I1 stream placed on the upstream connection of another downstream connection",
+				fmt.Sprintf("NewStream put stream %d on connection %d, which is bound to another downstream connection than the one of the request", s.ord, on.idx)})
+		}
+		for _, c := range w.conns {
+			if c != on && c.open() && !c.tainted() && !w.shutdown && bm.DownstreamOf(c.fc) == bm.DownstreamOf(on.fc) { // (Shutdown tells every client to go away)
+				w.lease = append(w.lease, finding{"pool=" + pn + " I1 second upstream connection for one downstream connection",
+					fmt.Sprintf("NewStream put stream %d on connection %d although connection %d, bound to the same downstream connection, is open and did not announce go-away", s.ord, on.idx, c.idx)})
+			}
+		}
+	}
 	if w.d.Kind() == PingPong && inflightBefore[on] > 0 {
 		w.lease = append(w.lease, finding{"pool=" + pn + " I1 connection leased while it still carries an in-flight stream",
 			fmt.Sprintf("NewStream put stream %d on connection %d which already carries %d in-flight stream(s)", s.ord, on.idx, inflightBefore[on])})
@@ -899,6 +996,9 @@ func (w *world) enabled() []string {
 			out = append(out, "ext-")
 		}
 	}
+	if x, ok := w.d.(ExtraEvents); ok {
+		out = append(out, x.ExtraEnabled(w.pool)...)
+	}
 	return out
 }
 
@@ -934,6 +1034,34 @@ func (w *world) check() map[string]sv {
 	for _, c := range w.conns {
 		if c.open() {
 			nOpen++
+		}
+	}
+	mo := w.model()
+	nActive := nOpen // the number upstream_connection_active must show
+	if mo.DrainingNotActive {
+		for _, c := range w.conns {
+			if c.open() && c.tainted() && c.replaced {
+				nActive--
+			}
+		}
+	}
+	if mo.SingleConn {
+		usable := 0
+		for _, c := range w.conns {
+			if c.open() && !c.tainted() {
+				usable++
+			}
+		}
+		if usable > 1 {
+			add("single", pn+" I3 more than one usable connection to the host (streams are multiplexed over one)", fmt.Sprintf("%d connections are open and did not announce go-away", usable))
+		}
+	}
+	if bm, ok := w.d.(BindingModel); ok && mo.Binding {
+		for _, c := range w.conns {
+			if down := bm.DownstreamOf(c.fc); c.open() && down != nil && down.IsClosed() {
+				add(fmt.Sprintf("c%d", c.idx), pn+" I3 upstream connection still open after its downstream connection closed (lease not released)",
+					fmt.Sprintf("connection %d is open (%d in-flight streams) although the downstream connection it is bound to is closed", c.idx, len(w.inflightOn(c))))
+			}
 		}
 	}
 	idleCount := map[*vfake.Conn]int{}
@@ -1009,7 +1137,8 @@ func (w *world) check() map[string]sv {
 				add(obj, pn+" I3 open connection neither referenced by a slot nor draining (leaked)",
 					fmt.Sprintf("connection %d is open, carries no stream and no slot of the pool refers to it", c.idx))
 			}
-			if _, ok := ref[c.fc]; !ok && nin > 0 && !goaway {
+			if _, ok := ref[c.fc]; !ok && nin > 0 && !goaway && !(mo.Binding && w.shutdown) {
+				// (binding model: Shutdown tells every client to go away; they leave the pool and drain)
 				add(obj, pn+" I3 open connection with in-flight streams is not referenced by any slot",
 					fmt.Sprintf("connection %d is open, carries %d stream(s), did not announce go-away and no slot of the pool refers to it", c.idx, nin))
 			}
@@ -1024,11 +1153,11 @@ func (w *world) check() map[string]sv {
 	if d := now[1] - w.base[1]; d != nin {
 		add("cra", pn+" I5 cluster stat upstream_request_active differs from the in-flight streams", fmt.Sprintf("cluster upstream_request_active moved by %d, in-flight streams=%d", d, nin))
 	}
-	if d := now[2] - w.base[2]; d != int64(nOpen) {
-		add("hca", pn+" I3 host stat upstream_connection_active differs from the open connections", fmt.Sprintf("host upstream_connection_active moved by %d, open connections=%d", d, nOpen))
+	if d := now[2] - w.base[2]; d != int64(nActive) {
+		add("hca", pn+" I3 host stat upstream_connection_active differs from the open connections", fmt.Sprintf("host upstream_connection_active moved by %d, open connections=%d%s", d, nOpen, drainingNote(nOpen-nActive)))
 	}
-	if d := now[3] - w.base[3]; d != int64(nOpen) {
-		add("cca", pn+" I3 cluster stat upstream_connection_active differs from the open connections", fmt.Sprintf("cluster upstream_connection_active moved by %d, open connections=%d", d, nOpen))
+	if d := now[3] - w.base[3]; d != int64(nActive) {
+		add("cca", pn+" I3 cluster stat upstream_connection_active differs from the open connections", fmt.Sprintf("cluster upstream_connection_active moved by %d, open connections=%d%s", d, nOpen, drainingNote(nOpen-nActive)))
 	}
 	cur := w.rm.Requests().Cur()
 	if cur < 0 {
@@ -1056,6 +1185,13 @@ func (w *world) check() map[string]sv {
 		}
 	}
 	return out
+}
+
+func drainingNote(n int) string {
+	if n == 0 {
+		return ""
+	}
+	return fmt.Sprintf(" (of which %d only drain next to their successor and are not active)", n)
 }
 
 // canon is the canonical form of the state.
@@ -1107,6 +1243,9 @@ func (w *world) canon() string {
 			ss = append(ss, strconv.Itoa(sOrd[s]))
 		}
 		fmt.Fprintf(&sb, "c%d{%s s=%v idle=%v slot=%v taint=%v nr=%v}", n, st, ss, idlePos[c.fc], slotOf[c.fc], c.taints, c.noRead)
+		if c.replaced && w.model().DrainingNotActive {
+			sb.WriteString("R")
+		}
 		n++
 	}
 	fmt.Fprintf(&sb, "|idle=%d", len(b.Idle))
